@@ -35,7 +35,7 @@ def store_spec_differs():
 
 # ------------------------------------------------------------------ generation (TLC)
 def restart_histories(ctx):
-    plan = [("Reopen_r2.cfg", None, None), ("Reopen_sim.cfg", "num=%d" % (60 if ctx.tier == "quick" else 1500), 14)]
+    plan = [("Reopen_r2.cfg", None, None), ("Reopen_sim.cfg", "num=%d" % (60 if ctx.tier == "quick" else 1200), 14)]
     if ctx.tier != "quick":
         plan.insert(1, ("Reopen_r3.cfg", None, None))
     hs, seen = [], set()
@@ -287,11 +287,52 @@ def run_harness(ctx, name, lines, jobs=12):
     return outs
 
 
+def judge(ctx, jl, chunk=12000, parallel=4):
+    """hand the observations to TLC (Reopen.tla, Mode "judge"); big files go in chunks, a few JVMs at a time"""
+    from concurrent.futures import ThreadPoolExecutor
+    cfg = "Reopen_judge_lenient.cfg" if LENIENT_RELABEL else "Reopen_judge.cfg"
+
+    def one(part):
+        text = "".join(json.dumps(x, separators=(",", ":")) + "\n" for x in part)
+        return ctx.tlc("reopen", "Reopen", cfg, files={"obs.ndjson": text}, workers=1, timeout=2400, count=False, heap="6g").msgs.get("verdict", [])
+
+    parts = [jl[i:i + chunk] for i in range(0, len(jl), chunk)] or [[]]
+    out = {}
+    with ThreadPoolExecutor(max_workers=parallel) as ex:
+        for vs in ex.map(one, parts):
+            for v in vs:
+                out[v["i"]] = v
+    return out
+
+
+def corrupt(ctx, rreqs, routs, hs, couts):
+    """binding self-test (VERIF_C04_CORRUPT=1): falsify one recorded observation of each kind; the check must object"""
+    done = False
+    for n, (d, hi, full) in enumerate(rreqs):
+        seen_restart = False
+        for e, st in zip(hs[hi], routs[n].get("steps", [])):
+            seen_restart = seen_restart or e["call"]["op"] == "Restart"
+            for g, r in st["obs"].items():
+                ids = [l for l, x in (r.get("byLabel") or {}).items() if x]
+                if seen_restart and ids and not done:
+                    r["byLabel"][ids[0]] = r["byLabel"][ids[0]][1:]
+                    done = True
+                    ctx.log("self-test: removed a label-index answer from restart replay %d" % n)
+    done = False
+    for n in sorted(couts):
+        for cr in couts[n].get("crashes", []):
+            for g, r in (cr.get("obs") or {}).items():
+                if r.get("E") and not done and cr["k"] > 1:
+                    r["E"].pop(sorted(r["E"])[0])
+                    done = True
+                    ctx.log("self-test: removed an edge from the listing read back after crash point %d of case %d" % (cr["k"], n))
+
+
 def drivers(ctx):
     env = os.environ.get("VERIF_C04_DRIVERS")
     if env:
         return env.split(",")
-    return ["badger"] if ctx.tier == "quick" else ["badger", "level", "bolt"]
+    return ["badger"] if ctx.tier == "quick" else ["badger", "level", "bolt", "pebble"]
 
 
 def run(ctx):
@@ -326,7 +367,7 @@ def _run(ctx):
     trivial = {i for i, h in enumerate(hs) if not any(storecmp.nstate(e["after"]) for e in h)}
     trivial -= set(ctx.rng.sample(sorted(trivial), len(trivial) // 20))
     nonempty = [i for i, h in enumerate(hs) if any(e["call"]["op"] == "Restart" and storecmp.nstate(e["after"]) for e in h)]
-    nfull = 32 if ctx.tier == "quick" else 400
+    nfull = 16 if ctx.tier == "quick" else 200
     full_badger = set(ctx.rng.sample(nonempty, min(nfull, len(nonempty))))
     nonempty = set(nonempty)
     for d in drivers(ctx):
@@ -337,7 +378,7 @@ def _run(ctx):
                 rreqs.append((d, i, False))
                 if i in full_badger:
                     rreqs.append((d, i, True))
-            elif i in nonempty and ctx.rng.random() < 0.5:
+            elif i in nonempty and ctx.rng.random() < (0.5 if len(hs) < 5000 else 0.15):
                 rreqs.append((d, i, True))
     routs = {}
     for d in drivers(ctx):
@@ -350,10 +391,11 @@ def _run(ctx):
 
     # ---------------------------------------------------------------- replay: crash points
     creqs = []
-    per_state = 8 if ctx.tier == "quick" else 30
+    # all calls out of the states reachable in <= 2 calls; a seeded choice of calls out of the deeper ones
+    per_state = 8 if ctx.tier == "quick" else 14
     for si, s in enumerate(states):
         cases = list(range(len(s["cases"])))
-        if s["random"] and len(cases) > per_state:
+        if (s["random"] or len(s["calls"]) > 2) and len(cases) > per_state:
             cases = sorted(ctx.rng.sample(cases, per_state))
         for ci in cases:
             c = s["cases"][ci]
@@ -363,6 +405,8 @@ def _run(ctx):
     couts = run_harness(ctx, "crash", ("badger", lines))
 
     ctx.log("explored the crash points of %d (history, call) cases" % len(creqs))
+    if os.environ.get("VERIF_C04_CORRUPT") == "1":
+        corrupt(ctx, rreqs, routs, hs, couts)
 
     # ---------------------------------------------------------------- judgement by the specification
     jl = []            # lines for TLC
@@ -417,10 +461,7 @@ def _run(ctx):
         else:
             jl.append(dict(kind="done", i=len(jl), calls=calls, call=case["call"], obs=dobs))
             meta.append(("done", n))
-    text = "".join(json.dumps(x, separators=(",", ":")) + "\n" for x in jl)
-    jr = ctx.tlc("reopen", "Reopen", "Reopen_judge_lenient.cfg" if LENIENT_RELABEL else "Reopen_judge.cfg", files={"obs.ndjson": text}, workers=1, timeout=2400,
-                 count=False, heap="12g")
-    verdicts = {v["i"]: v for v in jr.msgs.get("verdict", [])}
+    verdicts = judge(ctx, jl)
     if len(verdicts) != len(jl):
         raise Inconclusive("TLC judged %d of %d observations" % (len(verdicts), len(jl)))
     tbl = {k: verdicts[i]["obs"] for k, i in state_keys.items()}
